@@ -6,8 +6,13 @@ import Spine.Generated.EventBus
 
 The hand-written models `Spine.Bus` (`Spine/Events.lean`) and its lock refinement (`Spine/EventsLock.lean`) split
 `Publish` into events at its lock boundaries and treat `subscribe` / `unsubscribe` as single events. That split is a
-claim about the source text. The translator (generator `eventbus`, go/ast over spine/events.go) re-extracts it from
-`/repo`'s current tree; these theorems are re-checked by every `./check C15`. A code change that moves a lock
+claim about the source. The translator (generator `eventbus`) re-establishes it from `/repo`'s current tree by ABSTRACT
+INTERPRETATION of the methods over go/ast (go/cmd/translate/absint.go): calls to helpers of package spine are followed
+(in whatever file they live), deferred calls run at the end of the frame that deferred them, the loop over the levels
+is unrolled and an abstract handler list with one core and one application item is visited in both orders; mutexes,
+the list and the level field are identified by type, not by name. Extracting or inlining helpers, if/else <-> switch,
+loops <-> calls, renames of unexported identifiers and moved files leave the facts unchanged. These theorems are
+re-checked by every `./check C15`. A code change that moves a lock
 operation, makes a core handler asynchronous or an application handler synchronous, or swaps the level order breaks
 the obligation named here — before, and independently of whether, the harness finds the failing schedule.
 -/
